@@ -406,34 +406,94 @@ def from_utf8(ex, args):
 
 # ------------------------------------------------------------------ exact numeric values
 
-@dataclass(frozen=True, eq=False)
 class F64Exact:
-    """value = num / 10**scale, to be rounded to nearest-even double when used as a float.
-    num: Python int or BitVec(128)"""
-    num: Any
-    scale: int = 0
-    neg: bool = False
-
+    """value = (integer denoted by the ASCII digit string src, or num) / 10**scale, rounded to nearest-even double
+    when used as a float.  The digit string is kept so that value obligations can be decided digit-wise."""
     type_name = 'f64'
 
+    def __init__(self, num=None, scale=0, neg=False, src=None):
+        self._num = num
+        self.scale = scale
+        self.neg = neg
+        self.src = src        # Seq of ASCII digits (without the decimal point) or None
+
+    @property
+    def num(self):
+        if self._num is None:
+            self._num = digits_value(None, self.src)
+        return self._num
+
     def to_fp(self):
-        if not is_sym(self.num):
-            v = self.num / (10 ** self.scale) if self.scale else float(self.num)
+        num = self.num
+        if not is_sym(num):
             if self.scale:
-                v = float('%d.%0*d' % (self.num // 10 ** self.scale, self.scale, self.num % 10 ** self.scale))
+                v = float('%d.%0*d' % (num // 10 ** self.scale, self.scale, num % 10 ** self.scale))
+            else:
+                v = float(num)
             return -v if self.neg else v
         if self.scale != 0:
             raise Unsupported('IEEE value of a symbolic decimal fraction')
-        fp = z3.fpUnsignedToFP(z3.RNE(), self.num, z3.Float64())
+        fp = z3.fpUnsignedToFP(z3.RNE(), num, z3.Float64())
         return z3.fpNeg(fp) if self.neg else fp
+
+    def compare_const(self, op, t):
+        """exact comparison `self op t` with a concrete double t, or None if not decidable without IEEE encoding.
+        The value is a non-negative decimal with at most 15 significant digits here, hence exactly representable
+        or compared exactly through integers."""
+        import math
+        if self.neg:
+            return None
+        if math.isnan(t):
+            return op == 'Ne'
+        if t == float('inf'):
+            return {'Lt': True, 'Le': True, 'Gt': False, 'Ge': False, 'Eq': False, 'Ne': True}[op]
+        if t < 0 or t == float('-inf'):
+            return {'Lt': False, 'Le': False, 'Gt': True, 'Ge': True, 'Eq': False, 'Ne': True}[op]
+        num = self.num
+        if not is_sym(num):
+            return None
+        if self.src is not None and self.src.cap > 15:
+            ln_ok = z3.ULE(bv(self.src.len, 64), 15)
+        else:
+            ln_ok = True
+        # value = num / 10^scale ; compare num with t * 10^scale exactly (t is a dyadic rational)
+        from fractions import Fraction
+        bound = Fraction(t) * (10 ** self.scale)
+        fl, ce = math.floor(bound), math.ceil(bound)
+        n = bv(num, 128)
+        if op == 'Lt':
+            res = z3.ULT(n, z3.BitVecVal(ce, 128))
+        elif op == 'Le':
+            res = z3.ULE(n, z3.BitVecVal(fl, 128))
+        elif op == 'Gt':
+            res = z3.UGT(n, z3.BitVecVal(fl, 128))
+        elif op == 'Ge':
+            res = z3.UGE(n, z3.BitVecVal(ce, 128))
+        elif op == 'Eq':
+            res = (n == fl) if fl == ce else z3.BoolVal(False)
+        else:
+            res = (n != fl) if fl == ce else z3.BoolVal(True)
+        if ln_ok is True:
+            return res
+        self._needs_len15 = ln_ok
+        return ('guarded', ln_ok, res)
 
     def merge_with(self, c, other):
         if isinstance(other, F64Exact) and other.scale == self.scale and other.neg == self.neg:
+            if self.src is not None and other.src is not None:
+                return F64Exact(None, self.scale, self.neg, seq_ite(c, self.src, other.src))
             return F64Exact(ite(c, bv(self.num, 128), bv(other.num, 128)), self.scale, self.neg)
         return None
 
     def same_as(self, o):
-        return self.scale == o.scale and self.neg == o.neg and same(self.num, o.num)
+        if not isinstance(o, F64Exact) or self.scale != o.scale or self.neg != o.neg:
+            return False
+        if self.src is not None and o.src is not None:
+            return same(self.src, o.src)
+        return same(self.num, o.num)
+
+    def __repr__(self):
+        return 'F64Exact(scale=%d, src=%r)' % (self.scale, self.src if self.src is not None else self._num)
 
 
 def digits_value(ex, seq: Seq, start=0):
@@ -480,7 +540,7 @@ def str_parse(ex, args):
     if not dots:
         valid = And(Not(eq_any(seq.len, 0, 64)), all_ascii_digits(seq))
         ex.bound_if(Not(ule(seq.len, 38)), 'more than 38 digits')
-        val = F64Exact(digits_value(ex, seq), 0)
+        val = F64Exact(None, 0, False, seq)
         cb = concrete_bool(valid)
         if cb is True:
             return ok(val)
@@ -498,7 +558,7 @@ def parse_f64_concrete(s: str):
     m2 = re.fullmatch(r'([0-9]+)(?:\.([0-9]*))?', s)
     if m2:
         ip, fp = m2.group(1), m2.group(2) or ''
-        return ok(F64Exact(int(ip + fp), len(fp)))
+        return ok(F64Exact(int(ip + fp), len(fp), False, seq_from_bytes((ip + fp).encode())))
     return ok(float(s))
 
 
